@@ -35,6 +35,13 @@ type Ob struct {
 
 var allGuars []*Guar
 
+// guarAlso: guarantees whose proof obligation is also part of the verdict of further properties (the property text of
+// those properties states the same clause, e.g. C08 "introspection requires the authenticated caller").
+var guarAlso = map[string][]string{}
+
+// sharedObs: obligations owned by one property and re-evaluated as part of another (same reason).
+var sharedObs = map[string][]Ob{}
+
 func guar(prop, fn string, p []string, facts ...string) {
 	allGuars = append(allGuars, &Guar{Prop: prop, Fn: fn, P: p, Facts: facts})
 }
@@ -93,7 +100,7 @@ func RunE1(c *Ctx, prop string, obs []Ob) {
 	e := c.e1()
 	// guarantees owned by this property are verified as obligations on success returns
 	for _, g := range allGuars {
-		if g.Prop != prop {
+		if g.Prop != prop && !contains(guarAlso[g.Fn], prop) {
 			continue
 		}
 		req := g.Proof
